@@ -8,9 +8,11 @@ import (
 	"fmt"
 	"os"
 	"path/filepath"
+	"runtime"
 	"sort"
 	"strings"
 	"sync"
+	"time"
 
 	"verifharness/stats"
 )
@@ -120,7 +122,7 @@ type Failer interface {
 
 // Report handles a violation: known findings are counted and do not fail;
 // anything else writes the replay file and fails the (rapid) test.
-func Report(t Failer, prop string, c any, v *Violation) {
+func Report(t Failer, prop, oracle string, c any, v *Violation) {
 	if v == nil {
 		return
 	}
@@ -130,17 +132,18 @@ func Report(t Failer, prop string, c any, v *Violation) {
 		return
 	}
 	rec.Violation()
-	path := writeReplay(prop, c, v)
+	path := writeReplay(prop, oracle, c, v)
 	t.Fatalf("VIOLATION property=%s replay=%s\nkind=%s\n%s", prop, path, v.Kind, v.Msg)
 }
 
-func writeReplay(prop string, c any, v *Violation) string {
+func writeReplay(prop, oracle string, c any, v *Violation) string {
 	raw, err := json.Marshal(c)
 	if err != nil {
 		raw = []byte(fmt.Sprintf("%q", fmt.Sprint(c)))
 	}
 	rf := ReplayFile{
 		Property:  prop,
+		Oracle:    oracle,
 		Seed:      os.Getenv("VERIF_SHARD_SEED"),
 		Tier:      os.Getenv("VERIF_TIER"),
 		Case:      raw,
@@ -161,9 +164,9 @@ type Replayer func(raw json.RawMessage) (*Violation, error)
 
 var replayers = map[string]Replayer{}
 
-// Register makes check the replay function of prop for cases of type C.
-func Register[C any](prop string, check func(C) Outcome) {
-	replayers[prop] = func(raw json.RawMessage) (*Violation, error) {
+// Register makes check the replay function of (prop, oracle) for cases of type C.
+func Register[C any](prop, oracle string, check func(C) Outcome) {
+	replayers[prop+"/"+oracle] = func(raw json.RawMessage) (*Violation, error) {
 		var c C
 		if err := json.Unmarshal(raw, &c); err != nil {
 			return nil, err
@@ -213,4 +216,49 @@ func clip(s string, n int) string {
 
 func indent(s string) string {
 	return "    " + strings.ReplaceAll(s, "\n", "\n    ")
+}
+
+// Guard runs f (a call into knut library code) under a watchdog: a panic is
+// returned; a call that does not return within budget, or that drives the
+// heap beyond 3 GB, cannot be abandoned safely in-process (the goroutine keeps
+// running), so the case is written out as a replay file and the process exits
+// at once with a VIOLATION line (no shrinking).
+func Guard(prop, oracle string, c any, budget time.Duration, f func()) (panicked any) {
+	done := make(chan any, 1)
+	go func() {
+		defer func() { done <- recover() }()
+		f()
+	}()
+	deadline := time.After(budget)
+	tick := time.NewTicker(200 * time.Millisecond)
+	defer tick.Stop()
+	for {
+		select {
+		case p := <-done:
+			return p
+		case <-deadline:
+			abandon(prop, oracle, c, V("hang", "library call did not return within %s", budget))
+		case <-tick.C:
+			var ms runtime.MemStats
+			runtime.ReadMemStats(&ms)
+			if ms.HeapAlloc > 3<<30 {
+				abandon(prop, oracle, c, V("memory", "library call drove the heap to %d MB", ms.HeapAlloc>>20))
+			}
+		}
+	}
+}
+
+func abandon(prop, oracle string, c any, v *Violation) {
+	if id, ok := MatchKnown(prop, v); ok {
+		stats.Get(prop).Known(id)
+		stats.Get(prop).Note("abandoned process on known finding " + id)
+		stats.FlushAll()
+		fmt.Printf("KNOWN-FINDING-SEEN: property=%s id=%s (process abandoned)\n", prop, id)
+		os.Exit(3)
+	}
+	stats.Get(prop).Violation()
+	path := writeReplay(prop, oracle, c, v)
+	stats.FlushAll()
+	fmt.Printf("VIOLATION property=%s replay=%s\nkind=%s\n%s\n", prop, path, v.Kind, v.Msg)
+	os.Exit(1)
 }
